@@ -303,13 +303,13 @@ func genAllowed(r *vh.Rand) []string {
 	return []string{"@/allowed"}
 }
 
-// insideScratch: the cleaned request stays below the scratch root (the model's "/")
+// insideScratch: the cleaned request stays strictly below the scratch root (the model's "/")
 func insideScratch(p string) bool {
 	if !strings.HasPrefix(p, "@") {
 		return true // relative and empty paths are refused lexically
 	}
 	c := filepath.Clean("/R" + p[1:])
-	return c == "/R" || strings.HasPrefix(c, "/R/")
+	return strings.HasPrefix(c, "/R/") // strictly below: the root itself has a real name the model does not know
 }
 
 func genCase(r *vh.Rand) kase {
